@@ -18,3 +18,5 @@ func zzGoroutines() int
 func zzConn() *net.UDPConn { return &net.UDPConn{} }
 
 var zzResetHook func()
+
+func zzTrack(s *PfcpServer) {}
